@@ -89,7 +89,10 @@ func (c *AuthorizeExplicitGrantHandler) HandleTokenEndpointRequest(ctx context.C
 	// credentials (or assigned other authentication requirements), the
 	// client MUST authenticate with the authorization server as described
 	// in Section 3.2.1.
-	request.SetSession(authorizeRequest.GetSession())
+	// Work on a copy of the stored session: the expiry times set below belong to the tokens issued by this
+	// request and must not leak into other records that may share the stored session (for example the access
+	// token issued by the authorization endpoint in the OpenID Connect hybrid flow).
+	request.SetSession(authorizeRequest.GetSession().Clone())
 	request.SetID(authorizeRequest.GetID())
 
 	atLifespan := fosite.GetEffectiveLifespan(request.GetClient(), fosite.GrantTypeAuthorizationCode, fosite.AccessToken, c.Config.GetAccessTokenLifespan(ctx))
